@@ -501,6 +501,9 @@ func c11StageExits(c *Ctx) {
 						return true
 					}
 				}
+				if has("empty") && factZero([]fact{fc}, func(v ssa.Value) bool { call, _ := callOf(v); return call != nil && calleeID(&call.Call) == "builtin len" }) { // end-of-data chunk
+					return true
+				}
 				op, x, y, ok := cmpFact(fc)
 				if ok && op == token.GEQ && has("sizeGE") { // the read loop: step >= size
 					if call, _ := callOf(y); isVar("size")(y) || (call != nil && call.Call.IsInvoke() && call.Call.Method.Name() == "getSize") {
@@ -511,9 +514,6 @@ func c11StageExits(c *Ctx) {
 					continue
 				}
 				for _, p := range [][2]ssa.Value{{x, y}, {y, x}} {
-					if call, _ := callOf(p[0]); has("empty") && call != nil && calleeID(&call.Call) == "builtin len" && isConstIntV(0)(p[1]) { // end-of-data chunk
-						return true
-					}
 					if u, isU := strip(p[1]).(*ssa.UnOp); has("eof") && isU && u.Op == token.MUL { // err == io.EOF
 						if g, isG := u.X.(*ssa.Global); isG && g.Name() == "EOF" {
 							return true
